@@ -785,10 +785,20 @@ func (lc *leaderController) Write(ctx context.Context, request *proto.WriteReque
 // validateClientWrite refuses, before anything is appended to the log, the client requests that address
 // the internal key space: those keys hold the shard's own bookkeeping (term, commit offset, sessions,
 // secondary indexes, notifications) and are only written through writeBlock by the server itself.
+// It also refuses sequential puts that are malformed on their face.
 func validateClientWrite(request *proto.WriteRequest) error {
 	for _, put := range request.Puts {
 		if strings.HasPrefix(put.Key, constant.InternalKeyPrefix) {
 			return status.Errorf(codes.InvalidArgument, "oxia: key %q is in the reserved internal key space", put.Key)
+		}
+		if len(put.SequenceKeyDelta) > 0 {
+			// a malformed sequential put must not reach the log: applying it fails on every replica
+			if put.PartitionKey == nil {
+				return status.Error(codes.InvalidArgument, kv.ErrMissingPartitionKey.Error())
+			}
+			if put.SequenceKeyDelta[0] == 0 {
+				return status.Error(codes.InvalidArgument, kv.ErrSequenceDeltaIsZero.Error())
+			}
 		}
 	}
 	for _, del := range request.Deletes {
